@@ -7,6 +7,7 @@
 package c07
 
 import (
+	"strconv"
 	"bytes"
 	"context"
 	"encoding/json"
@@ -243,17 +244,23 @@ var (
 	console  = &vk.Capture{}
 )
 
-func setupE2E(t vk.TB) {
-	if e2eReady {
+var e2eCaller = true
+
+func setupE2E(t vk.TB) { configureE2E(t, true) }
+
+// configureE2E (re)builds the end-to-end logger with caller lookup on or off.
+func configureE2E(t vk.TB, caller bool) {
+	if e2eReady && caller == e2eCaller {
 		return
 	}
-	e2eReady = true
+	log.Destroy()
+	e2eReady, e2eCaller = true, caller
 	log.Stdout = console
 	log.TimeNow = func(ctx context.Context) time.Time { return ctx.Value(ctxKey{}).(*e2eCtx).t }
 	log.StringFromContext = func(ctx context.Context) string { return ctx.Value(ctxKey{}).(*e2eCtx).s }
 	log.FieldsFromContext = func(ctx context.Context) []log.Field { return ctx.Value(ctxKey{}).(*e2eCtx).fs }
 	err := log.Refresh(map[string]string{
-		"enableCaller":              "true",
+		"enableCaller":              strconv.FormatBool(caller),
 		"fastCaller":                "false",
 		"bufferCap":                 "10KB",
 		"appender.con.type":         "Console",
@@ -280,6 +287,9 @@ func TestC07_EndToEnd(t *testing.T) {
 		}
 		h.Tag = "_c07_e2e"
 		h.W = 48
+		// caller lookup is a global option; with it off the location is empty and the fileLine member
+		// is still there (":0")
+		configureE2E(t, rapid.SampledFrom([]bool{true, true, true, false}).Draw(t, "enableCaller"))
 		ctx := vk.GenFieldList(t, "ctx", 2, &st, opts())
 		fld := vk.GenFieldList(t, "fld", 6, &st, opts())
 		fs := ctx.Fields
@@ -303,6 +313,10 @@ func TestC07_EndToEnd(t *testing.T) {
 		log.Record(c, h.Level, e2eTag, 1, fld.Fields...)
 		line := console.Bytes()
 		h.File, h.Line = file, ln+1
+		if !e2eCaller {
+			h.File, h.Line = "", 0
+			vk.Class("end-to-end:caller-off")
+		}
 		desc := "e2e " + h.desc() + " ctx=[" + strings.Join(ctx.Desc, "; ") + "] fields=[" + strings.Join(fld.Desc, "; ") + "]"
 		record(&st, desc, h)
 		vk.Class("end-to-end")
